@@ -405,6 +405,22 @@ def symbolic_part(ctx, q, registry, mf, F, B, fresh_engine, real, real_bad):
         ("global_mut = global", seqs["Module::global_inst_iter_mut"], seqs["Module::global_inst_iter"]),
         ("all = global ++ per-function slices", seqs["Module::all_inst_iter"], z3.Concat(seqs["Module::global_inst_iter"], allf)),
     ]
+    # the assembled sequence is the logical layout (spec 2.4): the global sections in the specification's order, then the functions
+    import c05
+    import os as _os
+    import sys as _sys
+    _sys.path.insert(0, _os.path.join(_os.path.dirname(_os.path.dirname(_os.path.abspath(__file__))), "reference"))
+    import spec
+    mfields = c05.struct_fields("rspirv/dr/constructs.rs", "Module")
+    lay = []
+    for sec in spec.MODULE_SECTIONS:
+        if sec not in mfields:
+            raise Inconclusive("dr::Module has no field %s" % sec)
+        nm = "module.%d" % mfields.index(sec)
+        if nm not in den.vars:
+            raise Inconclusive("section %s (%s) is not visited by any traversal" % (sec, nm))
+        lay.append(den.vars[nm])
+    obligations.append(("assembled sequence = sections in logical layout order ++ functions", asm, z3.Concat(*(lay + [fasm[i] for i in range(F)]))))
     for i in range(F):
         obligations.append(("function[%d] traversal = its assembly" % i, fseqs[("all_inst_iter", i)], fasm[i]))
         obligations.append(("function[%d] mut = read-only" % i, fseqs[("all_inst_iter_mut", i)], fseqs[("all_inst_iter", i)]))
